@@ -19,6 +19,26 @@ try:
     for p in props:
         r = subprocess.run([os.path.join(VERIF, "check"), p, "--tier", "quick"], capture_output=True, text=True, env=env)
         print(p, (r.stdout.strip().splitlines() or ["?"])[-1][:100], file=sys.stderr)
+    # ---- the C twin: gcov over the shared instrumented overlay
+    cdir = os.path.join(d, "ov", "zope", "interface")
+    notes = (glob.glob(os.path.join(cdir, "*.gcno")) or [cdir])[0]
+    g = subprocess.run(["gcov", "-b", "-o", notes, os.path.join(cdir, "_zope_interface_coptimizations.c")], cwd=cdir, capture_output=True, text=True)
+    cmiss, ctotal = [], 0
+    gc = os.path.join(cdir, "_zope_interface_coptimizations.c.gcov")
+    if os.path.exists(gc):
+        for l in open(gc, errors="replace"):
+            parts = l.split(":", 2)
+            if len(parts) < 3:
+                continue
+            cnt, ln = parts[0].strip(), parts[1].strip()
+            if not ln.isdigit() or int(ln) == 0 or cnt == "-":
+                continue
+            ctotal += 1
+            if cnt.startswith("#####") or cnt.startswith("====="):
+                cmiss.append(int(ln))
+        print("%-28s %4d lines with code, %4d never executed (%.0f%% covered)" % ("_zope_interface_coptimizations.c", ctotal, len(cmiss), 100.0 * (ctotal - len(cmiss)) / max(1, ctotal)))
+    else:
+        print("gcov produced nothing:", (g.stdout + g.stderr)[-300:], file=sys.stderr)
     import coverage
     files = glob.glob(os.path.join(d, "cov.*"))
     cov = coverage.Coverage(data_file=os.path.join(d, "combined"))
@@ -37,6 +57,7 @@ try:
             continue
         out[rel] = dict(statements=len(stmts), missed=len(missing), missing_lines=missing)
         print("%-28s %4d statements, %4d never executed (%.0f%% covered)" % (rel, len(stmts), len(missing), 100.0 * (len(stmts) - len(missing)) / max(1, len(stmts))))
-    json.dump(out, open(os.path.join(VERIF, "evidence", "tie-coverage.json"), "w"), indent=1)
+    out["_zope_interface_coptimizations.c"] = dict(statements=ctotal, missed=len(cmiss), missing_lines=cmiss)
+    json.dump(out, open(os.path.join(VERIF, "tie-coverage.json"), "w"), indent=1)
 finally:
     shutil.rmtree(d, ignore_errors=True)
